@@ -128,3 +128,13 @@ Definition limits_render {R} (fmt : bytes * (limit * limit * bytes) -> R) (perm 
    context, for arbitrary predicates (round 5, second pass) *)
 Definition register_scan (near pois : Z -> bool) (iter : list Z) : nat * bool :=
   fold_left (fun (acc : nat * bool) a => ((if near a then S (fst acc) else fst acc), (if negb (snd acc) && pois a then true else snd acc))) iter (O, false).
+
+(* ---- processor.rs check_for_bitflips: possible_bit_flips = the candidates of the crashing address, then for every register of
+   the crashing instruction (a BTreeSet<&str> that op_analysis filled operand by operand: [inserted] in that order) the
+   candidates of its value — `get_register` may have nothing for a name ([cands] = [] then) *)
+Definition bitflip_candidates {K B} (kltb : K -> K -> bool) (cands : K -> list B) (base : list B) (inserted : list K) : list B :=
+  base ++ flat_map cands (oset_of_list kltb inserted).
+(* the variant of seeded change C13-2 in the model's terms: the registers go through a hash container whose iteration order
+   [iter] decides the order of the candidates *)
+Definition bitflip_candidates_hash {K B} (iter : list K -> list K) (cands : K -> list B) (base : list B) (regs : list K) : list B :=
+  base ++ flat_map cands (iter regs).
